@@ -15,6 +15,8 @@ Update == /\ More /\ Ev.op = "update" /\ Ev.raised = "None"
 ZeroSd == /\ More /\ Ev.op = "update" /\ Ev.raised = "ValueError" /\ Ev.counted
           /\ RejectZeroSd(Ev.x) /\ Counters /\ Adv
 Refused == /\ More /\ Ev.op = "bad" /\ Ev.raised = "ValueError" /\ ~Ev.counted /\ (UNCHANGED cusumvars \/ PendingReset) /\ Counters /\ Adv
-Next == Update \/ ZeroSd \/ Refused
+(* reset() by the caller (once target and deviation are known): the sums restart, the statistics stay - they change after a DRIFT only *)
+Rst == /\ More /\ Ev.op = "reset" /\ Reset /\ Counters /\ Stats /\ Adv
+Next == Update \/ ZeroSd \/ Refused \/ Rst
 Spec == Init /\ [][Next]_tvars
 ==========================================================================
